@@ -221,6 +221,10 @@ mut('c03-await-reraises-queueempty', 'C03', ['C03.2'], M,
     "                            except asyncio.QueueEmpty:\n                                pass\n",
     "                            except asyncio.QueueEmpty:\n                                raise\n",
     'the arm that swallowed QueueEmpty re-raises it: awaiting a child from a handler raises whenever a bus queue is empty (a bare raise in an arm naming a specific class stays judged)')
+mut2('c03-cleanup-before-walk', 'C03', ['C03.11'], [
+    (S, "        # Clean up excess events to prevent memory leaks\n        if self.max_history_size:\n            self.cleanup_event_history()\n\n    def _get_applicable_handlers", "    def _get_applicable_handlers"),
+    (S, "        # After processing this event, check if any parent events can now be marked complete\n", "        if self.max_history_size:\n            self.cleanup_event_history()\n        # After processing this event, check if any parent events can now be marked complete\n"),
+], 'the history clean-up of process_event moved in front of the upward walk (seed C03-r11-1)')
 mut('c03-await-returns-copy', 'C03', ['C03.2'], M,
     "            # Errors should only be raised when explicitly requested via event_result() methods\n            return self\n",
     "            # Errors should only be raised when explicitly requested via event_result() methods\n            return self.model_copy()\n",
